@@ -13,6 +13,8 @@
 (*   inject  C13: with an exception injected into one callback every        *)
 (*           strategy still receives every update exactly once and the      *)
 (*           middleware runs before the strategies                          *)
+(*   contain C13: the same for the raw-data / sports-data / custom-event    *)
+(*           handlers of a live-mode framework instance                     *)
 (***************************************************************************)
 EXTENDS EventMerge, Json, IOUtils, TLCExt
 
@@ -71,11 +73,23 @@ P_Inject ==
           "")
     /\ Ck("C13", "RunNotAborted", C.error = "", C.error)
 
+\* live-mode handlers (raw data, sports data, custom events): nothing escapes the handler, every other
+\* callback still happens exactly once and in the same order
+P_Contain ==
+    /\ Ck("C13", "NoExceptionEscapesHandler", C.escaped = <<>>, <<C.escaped, C.inj>>)
+    /\ Ck("C13", "EachCallbackOnce",
+          /\ \A i \in DOMAIN C.expected : Count(C.delivered, C.expected[i]) = 1
+          /\ \A i \in DOMAIN C.delivered : Count(C.expected, C.delivered[i]) = 1,
+          <<{C.expected[i] : i \in {j \in DOMAIN C.expected : Count(C.delivered, C.expected[j]) # 1}},
+            {C.delivered[i] : i \in {j \in DOMAIN C.delivered : Count(C.expected, C.delivered[j]) # 1}}, C.inj>>)
+    /\ Ck("C13", "CallbackOrderKept", C.delivered = C.expected, <<FirstDiff(C.delivered, C.expected), C.inj>>)
+
 CaseOK ==
     /\ (C.kind = "merge" /\ "C14" \in Props => P_Merge)
     /\ (C.kind = "det" /\ "C14" \in Props => P_Det)
     /\ (C.kind = "iso" /\ "C13" \in Props => P_Iso)
     /\ (C.kind = "inject" /\ "C13" \in Props => P_Inject)
+    /\ (C.kind = "contain" /\ "C13" \in Props => P_Contain)
 
 Init == tid \in 1..Len(Cases) /\ (CaseOK = TRUE)
 Next == UNCHANGED tid
